@@ -38,6 +38,10 @@
 (*  15 FORGE: replace the whole document by one built under the all-zero file *)
 (*     key: header MAC under HKDF(K0, header), every segment sealed under     *)
 (*     HKDF(K0, np, payload), same shape, attacker's plaintext, garbage wfk   *)
+(*  17 LENGTHEN header line a (1 scheme, 2 a base64 value of the manifest,     *)
+(*     3 the MAC) by b valid characters: the line still has its form but the  *)
+(*     value is longer than what Encrypt writes (a MAC that decodes to more   *)
+(*     than 32 bytes, ...)                                                    *)
 (*  16 (first op only) the honest caller first decrypts the HONEST document    *)
 (*     through its caching key provider - a provider that keeps the file key  *)
 (*     in memory and hands out the same bytes on every unwrap                 *)
@@ -47,7 +51,9 @@
 (* 2: other key, same prefix; 3: both differ.                                 *)
 (* Source failure: the reader fails after `failAt` payload cells (0 = right   *)
 (* after the header, L = right after the last byte), or inside the header     *)
-(* (-2); -1 = never.  withData: the Read that delivers the last cells before  *)
+(* (-2); -1 = never; -3 = the source never fails and never ENDS on its own    *)
+(* (a pipe / network body whose writer waits for the outcome): after the last *)
+(* byte its Read blocks.  -1 = never fails and ends with EOF.  withData: the Read that delivers the last cells before  *)
 (* the failure returns them TOGETHER with the error (n > 0, err), otherwise   *)
 (* the error comes alone in the next Read.                                    *)
 EXTENDS EncTamperContract, Integers, TLC
@@ -56,7 +62,9 @@ CONSTANTS MaxSegs,        \* honest documents have 0..MaxSegs segments, the last
           MaxOps,         \* adversary operations per behaviour
           MaxOpsFail,     \* ... when the source also fails
           Defect,         \* "none" | "nolastbind" | "release-first" | "swallow" | "wipes-unwrapped-key" (Decrypt clears the slice
-                          \* the unwrap callback returned, i.e. the provider's cached key) | "double-put" (the rejection path gives the
+                          \* the unwrap callback returned, i.e. the provider's cached key) | "drain-before-close" (the rejection path first
+                          \* reads the rest of the input, then closes the output with the error) | "mac-overflow-panics" (a MAC line that
+                          \* decodes to more than 32 bytes indexes out of range) | "double-put" (the rejection path gives the
                           \* pooled buffer back twice) | "zero-key-accepted" (a failed unwrap is
                           \* forgotten once the fallback key is in place: a document forged under that key passes the MAC check)
           Export          \* TRUE: print one SCRIPT line per terminal state (replayed on the real code)
@@ -115,6 +123,8 @@ Mutate ==
      \/ \E a \in 1..N : \E j \in 1..2 : \E v \in 1..3 : Op(12, a, 10 * j + v, hdr, ukey, [units EXCEPT ![a] = BUnit(j, v)])
      \/ \E j \in 1..2 : \E v \in 1..3 : Op(13, j, v, hdr, ukey, Append(units, BUnit(j, v)))
      \/ /\ ukey = "KA" /\ ~ufail /\ \E a \in 1..5 : Op(14, a, 0, hdr, IF a \in {2, 3, 4} THEN "K0" ELSE "KX", units)
+     \/ /\ hdr = "ok" /\ \E x \in 1..3 : \E b \in {1, 4, 8} :
+             Op(17, x, b, CASE x = 1 -> "scheme" [] x = 2 -> "manifest" [] x = 3 -> "mac+", ukey, units)
      \/ /\ ops = <<>> /\ Op(16, 0, 0, hdr, ukey, units)
      \/ /\ ops \in {<<>>, << <<16, 0, 0>> >>} /\ Op(15, 0, 0, "forged0", ukey, [j \in 1..nA |-> Seal("K0", "NA", j - 1, j = nA, 200 + j, OrigUnits(nA, lastFull)[j].len)])
 
@@ -123,7 +133,7 @@ Forged == hdr = "forged0"
 (* what the unwrap callback hands to Decrypt: the provider's cached bytes unless op 14 substituted the outcome *)
 UKey == IF ukey = "KA" THEN cache ELSE ukey
 (* the provider's bytes after the Decrypt under test returned (it called the honest unwrap iff the header was readable) *)
-CacheAfter == IF Defect = "wipes-unwrapped-key" /\ ukey = "KA" /\ failAt # -2 /\ hdr \in {"ok", "mac", "forged0"} THEN "K0" ELSE cache
+CacheAfter == IF Defect = "wipes-unwrapped-key" /\ ukey = "KA" /\ failAt # -2 /\ hdr \in {"ok", "mac", "mac+", "forged0"} THEN "K0" ELSE cache
 (* the header is accepted iff scheme line and manifest are intact and the MAC verifies under the key in use; the   *)
 (* repaired Decrypt additionally returns an error after the MAC check whenever the unwrap callback had failed    *)
 HeaderAccepted == /\ \/ hdr = "ok" /\ UKey = "KA"
@@ -134,7 +144,7 @@ HeaderOnly == hdr \notin {"cut", "forged0"} /\ units = <<>> /\ nA > 0      \* no
 (* the caller hands the document to Decrypt; the source will fail at fa (or never) *)
 Start ==
   /\ phase = "mutate"
-  /\ \E fa \in ({-1} \cup (IF Len(ops) <= MaxOpsFail THEN {-2} \cup 0..L ELSE {})) :
+  /\ \E fa \in ({-1} \cup (IF Len(ops) <= MaxOpsFail THEN {-3, -2} \cup 0..L ELSE {})) :
        /\ failAt' = fa /\ withData' \in (IF fa >= 1 THEN BOOLEAN ELSE {FALSE})
        /\ c' = CReset([class |-> "model", len |-> nA, mutated |-> Mutated, headerOnly |-> HeaderOnly, forged |-> Forged])
   /\ phase' = "header"
@@ -150,6 +160,8 @@ Finish(t, evs) ==
 Header ==
   /\ phase = "header"
   /\ IF failAt = -2 THEN Finish("decrypt-err", <<[ev |-> "srcerr"], [ev |-> "decrypt", err |-> TRUE]>>)
+     ELSE IF failAt = -3 /\ hdr = "cut" THEN Finish("pending", <<>>)              \* readHeader waits for the rest of the header
+     ELSE IF hdr = "mac+" /\ Defect = "mac-overflow-panics" THEN Finish("panic", <<>>)
      ELSE IF ~HeaderAccepted THEN Finish("decrypt-err", <<[ev |-> "decrypt", err |-> TRUE]>>)
      ELSE /\ phase' = "loop" /\ c' = Feed(c, <<[ev |-> "decrypt", err |-> FALSE]>>)
           /\ UNCHANGED <<nA, lastFull, hdr, ukey, ufail, cache, units, ops, failAt, withData, i, released, term>>
@@ -182,7 +194,9 @@ Loop ==
                       /\ UNCHANGED <<nA, lastFull, hdr, ukey, ufail, cache, units, ops, failAt, withData, phase, term>>
                  ELSE IF Defect = "release-first"
                    THEN Finish("err", <<[ev |-> "release", n |-> 1, prefixOK |-> FALSE]>>)
+                   ELSE IF Defect = "drain-before-close" /\ failAt = -3 THEN Finish("hang", <<>>)  \* waits for an EOF that never comes
                    ELSE Finish("err", <<[ev |-> "pool", twice |-> Defect = "double-put"]>>)       \* scheme.go:326-330
+        ELSE IF failAt = -3 THEN Finish("pending", <<>>)           \* needs more input or EOF; the source stays open: it legitimately waits
         ELSE IF fails THEN Finish("err", <<[ev |-> "srcerr"]>>)                               \* :286-290
         ELSE IF avail <= 0 THEN Finish(IF i = 0 THEN "eof" ELSE "err",                           \* :311-318
                                        IF failAt >= 0 THEN <<[ev |-> "srcerr"]>> ELSE <<>>)
@@ -210,7 +224,7 @@ CacheIntact == cache = "KA" /\ (phase = "done" => CacheAfter = "KA")
 SourceErrorSurfaces == (phase = "done" /\ failAt # -1) => term # "eof"
 
 (* one line per terminal state: the script and the model's prediction *)
-TermCode == CASE term = "eof" -> 0 [] term = "err" -> 1 [] term = "decrypt-err" -> 2 [] OTHER -> 9
+TermCode == CASE term = "eof" -> 0 [] term = "err" -> 1 [] term = "decrypt-err" -> 2 [] term = "pending" -> 3 [] OTHER -> 9
 ExportScripts ==
   (Export /\ phase = "done") =>
      PrintT(<<"SCRIPT", nA, IF lastFull THEN 1 ELSE 0, ops, failAt, IF withData THEN 1 ELSE 0, Len(released), TermCode>>)
